@@ -45,7 +45,11 @@ def run(ctx):
                                    mask=rpipe.mask_of(c["cfg"]), meta=True, single=False))
     # API level only: real parsers of all formats the library can write, large blocks (nested buffers inside PBF blobs,
     # XML/OPL buffers beyond the parser's buffer size in the thorough tier)
-    okreal = lambda c: rpipe.mask_of(c["cfg"]) and rpipe.literal_reads_ok(c)
+    def lit_reads(c):
+        sc = c["cfg"]["script"]
+        return len([k for k, op in enumerate(sc) if op == "read" and "readall" not in sc[:k] and "close" not in sc[:k]])
+    # text formats deliver a small file in one buffer: at most one literal read() before readall/close can be aligned with the model
+    okreal = lambda c: rpipe.mask_of(c["cfg"]) and rpipe.literal_reads_ok(c) and lit_reads(c) <= 1
     fmts = ["xml", "opl", "pbf", "pbf,pbf_dense_nodes=false", "pbf,pbf_compression=none"]
     for i, c in enumerate(rpipe.sample(text, 150 if quick else 1500, rnd, pred=okreal, key=lambda c: (str(c["cfg"]["skip"]), c["cfg"]["n"]))):
         cc = dict(c)
